@@ -135,6 +135,24 @@ theorem len_readDir (es : List Info) : (readDirResult es).length = 8 + 529 * es.
 example : (decode (encBareReq Gen.proto_CmdReadDir ++ encPathReq Gen.proto_CmdStatFile [47])) =
     .req .readDir (encPathReq Gen.proto_CmdStatFile [47]) := consumes_readDir _
 
+/-- OPEN_DIR closes the active directory whether or not the new one can be opened: after a refused
+    OPEN_DIR no directory is active, so a following enumeration answers the end marker. -/
+theorem failed_openDir_leaves_no_dir (cfg : Cfg) (w : World) (st : State) (raw : Bytes)
+    (h : (step cfg w st (.openDir raw)).2.2.bytes = openDirResult false) :
+    (step cfg w st (.openDir raw)).2.1.cwd = none := by
+  simp only [step] at h ⊢
+  cases ho : openRO cfg w (PathStr.cleanRequest raw) with
+  | none => simp
+  | some ro =>
+    cases ro with
+    | dir q =>
+      rw [ho] at h
+      simp only at h
+      have : openDirResult true ≠ openDirResult false := by decide
+      exact absurd h this
+    | plain i => simp
+    | static v => simp
+
 /-! ### synchronisation over whole request sequences -/
 
 /-- a request as the protocol documents it on the wire -/
